@@ -21,6 +21,10 @@ from .core import Ctx, MachineryError
 from .tlc import expect_clean, expect_violation, run_tlc
 
 FIXES = ("FixSubtree", "FixCompanion", "FixPop", "FixNodeExit", "FixNested")
+PINNED = "00000"    # redun as pinned: all five deviations
+CURRENT = "11100"   # redun as it is now: a1120b6 (FixSubtree), e1d77f2 (FixCompanion), e2306bb (FixPop) are
+                    # in /repo; NodeExistsEarlyExit and NestedRetryDropsOuterRows are open findings
+FALLBACKS = ("00000", "10000", "01000", "00100", "00010", "00001", "11111")  # older / further repaired trees
 WEAK = ("TypeOK", "GhostMerkle", "WeakFK", "WeakFresh", "WeakSurvives", "WeakComplete", "WeakC03",
         "StaleOnlyShallow", "FKDevOnlyAfterDev")
 
@@ -42,12 +46,16 @@ EXPLAINS = {
 }
 
 
-def cfg_text(fixes: str, npoints: int, with_import: bool, spec: str = "Spec", maxruns: int = 3,
+def cfg_text(fixes: str, npoints: dict, with_import: bool, spec: str = "Spec", maxruns: int = 3,
              invariants=(), view: bool = True) -> str:
+    """npoints: workload variant (0 chain, 1 prov=False below the parent) -> points of its fault-free
+    recording run; the variants present are the ones model-checked."""
     t = f"SPECIFICATION {spec}\nCONSTANTS\n"
     for n, c in zip(FIXES, fixes):
         t += f" {n} = {'TRUE' if c == '1' else 'FALSE'}\n"
-    t += (f" MaxRuns = {maxruns}\n NPoints = {npoints}\n WithImport = {'TRUE' if with_import else 'FALSE'}\n"
+    variants = ", ".join("TRUE" if v else "FALSE" for v in sorted(npoints))
+    t += (f" MaxRuns = {maxruns}\n NPoints = {npoints.get(0, 1)}\n NPointsNP = {npoints.get(1, 1)}\n"
+          f" Variants = {{{variants}}}\n WithImport = {'TRUE' if with_import else 'FALSE'}\n"
           "CHECK_DEADLOCK FALSE\n")
     if view:
         t += "VIEW View\n"
@@ -69,27 +77,31 @@ def _inj_key(inj: dict) -> tuple:
     return (inj["kind"], inj["at"], inj["site"])
 
 
-def model_check(ctx: Ctx, npoints: int, with_import: bool, strict_parts: list[str]) -> dict:
-    """As-built model: weak invariants hold and the IDLE table is emitted; the strict contract
-    fails (control); the repaired model satisfies the strict contract; thorough: every single
-    repair is necessary.  Returns the IDLE table {(inj, hist): [allowed idle states]}."""
+def model_check(ctx: Ctx, npoints: dict, with_import: bool, strict_parts: list[str]) -> dict:
+    """Model of redun as it is now (CURRENT): weak invariants hold and the IDLE table is emitted; the
+    strict contract fails on the model of redun as pinned (control); thorough: the repaired model
+    satisfies the strict contract and every single repair is necessary.  Both workload variants are
+    checked in the same TLC runs.  Returns the IDLE table {(variant, inj, hist): [allowed idle states]}."""
     res = run_tlc("cache/Backend_Gen.tla",
-                  cfg_text("00000", npoints, with_import, invariants=list(WEAK) + ["Emit"]),
+                  cfg_text(CURRENT, npoints, with_import, invariants=list(WEAK) + ["Emit"]),
                   ctx.scratch, workers=ctx.pick(8, "auto"), timeout=1500, heap="2g")
     expect_clean(res, "Backend.tla as built: every failure goes through a named deviation")
     ctx.add_tlc(res)
     ctx.note("model_states_as_built", res.distinct)
-    ctx.note("model_config", f"workload P->C->G (shallow P), 2 versions per task, MaxRuns=3, NPoints={npoints}, "
+    ctx.note("model_config", "workloads P->C->G (shallow P): chain, and child+grandchild prov=False (record_call_node "
+                             "records the subtree tasks itself, any iteration order of the task set); 2 versions per "
+                             f"task, MaxRuns=3, points of the fault-free recording run per variant={npoints}, "
                              f"WithImport={with_import}, injections: none | fault at any point | crash "
-                             "before/after any commit; repair switches all FALSE (as built)")
+                             f"before/after any commit; repair switches {CURRENT} (Subtree, Companion, Pop, NodeExit, "
+                             "Nested: redun as it is now), controls on 00000 (redun as pinned)")
     table: dict = {}
     for r in res.recs("IDLE"):
-        k = (_inj_key(r["inj"]), json.dumps(r["hist"]))
+        k = (1 if r["noprov"] else 0, _inj_key(r["inj"]), json.dumps(r["hist"]))
         table.setdefault(k, []).append(r)
     ctx.require(len(table) > 100, f"too few idle states emitted by Backend_Gen: {len(table)}")
     # control: the strict contract is violated by the as-built model, part by part
     for part in (["Strict"] if ctx.quick else strict_parts):
-        r2 = run_tlc("cache/Backend.tla", cfg_text("00000", npoints, with_import, invariants=[part]),
+        r2 = run_tlc("cache/Backend.tla", cfg_text(PINNED, npoints, with_import, invariants=[part]),
                      ctx.scratch, workers=4, timeout=900, heap="1g")
         expect_violation(r2, part, f"as-built model must violate {part}")
         ctx.add_tlc(r2)
@@ -118,34 +130,33 @@ def model_check(ctx: Ctx, npoints: int, with_import: bool, strict_parts: list[st
 # ------------------------------------------------------------------------------------------------
 # scenarios
 # ------------------------------------------------------------------------------------------------
-def base_run(ctx: Ctx) -> list[dict]:
-    """The fault-free recording run; its flush / commit points define the scenarios."""
-    ents = F.run_campaign(ctx.scratch, [{"id": 0, "inj": None, "edits2": [], "edits3": []}], workers=1)
+def base_run(ctx: Ctx, var: int = 0) -> list[dict]:
+    """The fault-free recording run of a workload variant; its flush / commit points define the scenarios."""
+    ents = F.run_campaign(ctx.scratch, [{"id": 0, "var": var, "inj": None, "edits2": [], "edits3": []}], workers=1)
     rec = ents[0]["rec"]
     ctx.require(rec["outcome"] == ["ok", "r11"], f"fault-free workload did not return 12: {rec['outcome']} {rec.get('msg')}")
     ctx.require(len(rec["points"]) >= 10, "commit interposition saw fewer than 10 points")
     return rec["points"]
 
 
-def make_jobs(ctx: Ctx, points: list[dict], with_import: bool) -> list[dict]:
+def make_jobs(ctx: Ctx, points: list[dict], with_import: bool, var: int = 0) -> list[dict]:
+    """Scenarios of one workload variant; job ids are var * 1000 + n (n = 0: no injection)."""
     rng = ctx.rng
     commits = [i for i, p in enumerate(points, 1) if p["k"] == "commit"]
     flushes = [i for i, p in enumerate(points, 1) if p["k"] == "flush"]
     injs: list[Optional[dict]] = [None]
     if ctx.quick:
         # faults are cheap (in-process): every point.  Crashes are real process deaths: the first and
-        # the last commit of every class (operation, tables written) plus a seeded sample.
+        # the last commit of every class (operation, tables written) before the commit, a seeded sample after it.
         for i in commits:
             injs.append({"kind": "fault", "at": i, "site": rng.choice(["commit", "cflush"])})
         cls: dict = {}
         for i in commits:
             cls.setdefault((points[i - 1]["op"], tuple(points[i - 1]["tabs"] or [])), []).append(i)
         before = sorted({c[0] for c in cls.values()} | {c[-1] for c in cls.values()})
-        rest = [i for i in commits if i not in before]
-        before = sorted(before + rng.sample(rest, min(3, len(rest))))
         for i in before:
             injs.append({"kind": "crash", "at": i, "site": "before"})
-        for i in sorted(rng.sample(commits, min(4, len(commits)))):
+        for i in sorted(rng.sample(commits, min(2, len(commits)))):
             injs.append({"kind": "crash", "at": i, "site": "after"})
         for i in flushes:
             injs.append({"kind": "fault", "at": i, "site": "flush"})
@@ -165,7 +176,7 @@ def make_jobs(ctx: Ctx, points: list[dict], with_import: bool) -> list[dict]:
         fl = [n for n, x in enumerate(injs) if x and x["kind"] == "fault"]
         imp_faults = set(fl if not ctx.quick else rng.sample(fl, min(8, len(fl))))
     for n, inj in enumerate(injs):
-        jobs.append({"id": n, "inj": inj, "edits2": e2, "edits3": e3,
+        jobs.append({"id": var * 1000 + n, "var": var, "inj": inj, "edits2": e2, "edits3": e3,
                      "with_import": with_import and (inj is None or n in imp_faults)})
     return jobs
 
@@ -179,7 +190,7 @@ def entry_trace(e: dict) -> dict:
     return F.trace_record(e["rec"], e["role"])
 
 
-def validate(ctx: Ctx, traces: list[dict], npoints: int, fixes: str = "00000", what: str = "asbuilt"):
+def validate(ctx: Ctx, traces: list[dict], npoints: dict, fixes: str = CURRENT, what: str = "asbuilt"):
     """Batch of trace records -> per index {acc, devs, con | imp, rej}.  Identical records are
     validated once."""
     uniq: dict[str, int] = {}
@@ -231,7 +242,7 @@ def idle_lookup(table: dict, entries: list[dict]) -> dict:
     stats = {"matched": 0, "unmatched": 0, "no_model_state": 0, "examples": []}
     for e in entries:
         inj = F.model_inj(e["inj"])
-        k = (_inj_key(inj), json.dumps(e["hist"]))
+        k = (e.get("var", 0), _inj_key(inj), json.dumps(e["hist"]))
         cands = table.get(k)
         if cands is None:
             stats["no_model_state"] += 1
@@ -264,7 +275,7 @@ def idle_lookup(table: dict, entries: list[dict]) -> dict:
         else:
             stats["unmatched"] += 1
             if len(stats["examples"]) < 3:
-                stats["examples"].append({"inj": inj, "hist": e["hist"]})
+                stats["examples"].append({"var": e.get("var", 0), "inj": inj, "hist": e["hist"]})
     return stats
 
 
@@ -278,11 +289,12 @@ def describe(e: dict) -> str:
     steps = []
     for k, x in e["hist"][1:]:
         steps.append("import" if k == "import" else ("run" if not x else f"edit {F.LEVEL[x]}; run"))
-    return s + ("; then " + ", ".join(steps) if steps else "")
+    s = s + ("; then " + ", ".join(steps) if steps else "")
+    return (f"[workload: {F.VAR_TEXT[e['var']]}] " if e.get("var") else "") + s
 
 
 def judge(ctx: Ctx, entries: list[dict], verdicts: list[dict], flags: list[str], keymap: dict,
-          points: list[dict]) -> dict:
+          points: dict) -> dict:
     """flags: the predicates this property owns.  keymap: deviation -> key for this property
     (may depend on the history through a callable)."""
     devs_of = {}
@@ -318,14 +330,16 @@ def judge(ctx: Ctx, entries: list[dict], verdicts: list[dict], flags: list[str],
                         break
             rec = e["rec"]
             pt = None
-            if e["inj"].get("kind", "none") != "none" and 0 < e["inj"]["at"] <= len(points):
-                pt = points[e["inj"]["at"] - 1]
+            pts = points.get(e.get("var", 0), [])
+            if e["inj"].get("kind", "none") != "none" and 0 < e["inj"]["at"] <= len(pts):
+                pt = pts[e["inj"]["at"] - 1]
             what = (f"predicate '{f}' false after: {describe(e)}"
                     + (f" [point = {pt['k']} in {pt['op']} writing {pt.get('tabs') or pt.get('pend')}]" if pt else "")
                     + f" -- outcome {rec['outcome']} {rec.get('msg', '')[:120]!r}, fresh {rec['fresh']}, "
                       f"deviations {sorted(D)}, accepted by as-built model: {all_acc}")
             stats["by_key"][key or "(none)"] = stats["by_key"].get(key or "(none)", 0) + 1
-            ctx.violation(what, {"inj": e["inj"], "hist": e["hist"], "flag": f, "outcome": rec["outcome"],
+            ctx.violation(what, {"inj": e["inj"], "hist": e["hist"], "var": e.get("var", 0), "flag": f,
+                                 "outcome": rec["outcome"],
                                  "post": F.tables_only(rec["post"]), "fkcheck": rec["post"]["FKCheck"],
                                  "rej": v["rej"]}, key=key)
     return stats
